@@ -48,6 +48,8 @@ type VC struct {
 	globals     map[string]Term
 	lateDecls   []string
 	noDefine    bool
+	defCache    map[string]Term
+	factCache   map[string]bool
 	ifaces      map[string]types.Type
 }
 
@@ -80,7 +82,13 @@ func (vc *VC) declareFun(name string, args []Sort, ret Sort) string {
 
 func (vc *VC) fresh(hint string, sort Sort) Term {
 	vc.counter++
-	return vc.declare(fmt.Sprintf("%s!%d", hint, vc.counter), sort)
+	c := vc.declare(fmt.Sprintf("%s!%d", hint, vc.counter), sort)
+	if len(hint) > 2 && hint[1] == '|' && sort.IsArray() {
+		if ax := heapRangeAxiom(hint, c); !ax.IsTrue() {
+			vc.assume(ax)
+		}
+	}
+	return c
 }
 
 func (vc *VC) assume(t Term) {
@@ -102,8 +110,15 @@ func (vc *VC) define(hint string, t Term) Term {
 	if len(t.S) < 48 || strings.Contains(t.S, "?") || vc.noDefine {
 		return t // small, or mentions a bound variable, or a dry run wants pre-loop terms
 	}
+	if vc.defCache == nil {
+		vc.defCache = map[string]Term{}
+	}
+	if c, ok := vc.defCache[t.S]; ok {
+		return c
+	}
 	c := vc.fresh(hint, t.Sort)
 	vc.assume(Eq(c, t))
+	vc.defCache[t.S] = c
 	return c
 }
 
@@ -174,22 +189,72 @@ func (st *State) heapNames() []string {
 
 // ---- heap naming ----
 
+// heapLeafTypes remembers the Go type stored in each heap (for the range axioms of sized integers).
+var heapLeafTypes = map[string]types.Type{}
+
 func fieldHeap(rootTy types.Type, path []int) (string, types.Type) {
 	t := rootTy
 	for _, i := range path {
 		t = under(t).(*types.Struct).Field(i).Type()
 	}
-	return "F|" + types.TypeString(rootTy, nil) + "|" + pathName(rootTy, path), t
+	n := "F|" + types.TypeString(rootTy, nil) + "|" + pathName(rootTy, path)
+	heapLeafTypes[n] = t
+	return n, t
 }
 
-func cellHeap(t types.Type) string { return "H|" + typeKey(t) }
+func cellHeap(t types.Type) string {
+	n := "H|" + typeKey(t)
+	heapLeafTypes[n] = t
+	return n
+}
 
 func elemHeap(elemTy types.Type, path []int) (string, types.Type) {
 	t := elemTy
 	for _, i := range path {
 		t = under(t).(*types.Struct).Field(i).Type()
 	}
-	return "E|" + typeKey(elemTy) + "|" + pathName(elemTy, path), t
+	n := "E|" + typeKey(elemTy) + "|" + pathName(elemTy, path)
+	heapLeafTypes[n] = t
+	return n, t
+}
+
+// heapRangeAxiom: every value stored in a heap of sized integers lies in the type's range
+// (an invariant of well-typed Go memory, needed when heap cells are read under quantifiers).
+func heapRangeAxiom(name string, h Term) Term {
+	t, ok := heapLeafTypes[name]
+	if !ok {
+		return True
+	}
+	depth := 1
+	if strings.HasPrefix(name, "E|") {
+		depth = 2
+	}
+	if a, isArr := under(t).(*types.Array); isArr {
+		t = a.Elem()
+		depth++
+	}
+	lo, hi, bounded, uns := intRange(t)
+	if !bounded && !uns {
+		return True
+	}
+	var bs []Bound
+	cur := h
+	for i := 0; i < depth; i++ {
+		n := fmt.Sprintf("x%d?", i)
+		bs = append(bs, Bound{n, SInt})
+		if !cur.Sort.IsArray() {
+			return True
+		}
+		cur = Select(cur, Var(n, SInt))
+	}
+	if cur.Sort != SInt {
+		return True
+	}
+	body := Le(IntLit(0), cur)
+	if bounded {
+		body = And(Le(IntLit(lo), cur), Le(cur, IntLit(hi)))
+	}
+	return ForallPat(bs, body, [][]Term{{cur}})
 }
 
 // ---- memory access ----
@@ -496,6 +561,15 @@ func (ex *Exec) typeFacts(t Term, ty types.Type, st *State) {
 		return // under a quantifier: the binder carries the range guard
 	}
 	if f := ex.typeFactTerm(t, ty, st); !f.IsTrue() {
+		if ex.vc.factCache == nil {
+			ex.vc.factCache = map[string]bool{}
+		}
+		if ex.vc.factCache[f.S] && ex.dry == 0 {
+			return
+		}
+		if ex.dry == 0 {
+			ex.vc.factCache[f.S] = true
+		}
 		ex.vc.assume(f)
 	}
 }
